@@ -11,7 +11,7 @@ function blocks once each. The due-ness arithmetic itself (>=, elapsed) is not d
 import re
 
 from ..cfg import F, op_local, place_fields
-from ..gates import call_result_edges, guarded, test_edges
+from ..gates import implied_edges, call_result_edges, guarded, test_edges
 from ..prov import origins, operand_origins
 from ..cg import field_reads
 
@@ -178,14 +178,18 @@ def run(ctx):
                             pd.append(l_)
             pd = sorted(set(pd)) or fn.local_of('periodic_due')
             lr_ = [b for b in loop if fn.assigns_field(b, lambda f: f.endswith('TaskState.last_run'))]
+            # edges on which the comparison holds, closed under implication (`interval > 0 && elapsed >= interval` kept
+            # in a flag, that flag combined with the SINGLE gate, ...)
+            pd_pos = set()
             for cand in list(pd):
-                p_, n_, _ = test_edges(fn, {cand: ('bool', True)})
+                p_, n_ = implied_edges(fn, {cand: ('bool', True)})
                 if p_ and lr_ and all(guarded(fn, b, p_) for b in lr_):
                     pd = [cand]
+                    pd_pos = p_
                     break
             lr = [b for b in loop if fn.assigns_field(b, lambda f: f.endswith('TaskState.last_run'))]
             if pd and lr:
-                pos, neg, _ = test_edges(fn, {pd[0]: ('bool', True)})
+                pos = pd_pos or test_edges(fn, {pd[0]: ('bool', True)})[0]
                 if pos and all(guarded(fn, b, pos) for b in lr):
                     r4.ok('period-memory-only-when-due', loc=fn.loc(lr[0]))
                 else:
@@ -219,12 +223,11 @@ def run(ctx):
                     oo_ = origins(fn, l_, extra_pass=lambda n: n.endswith('Deref>::deref'))
                     if any(o[0] == 'call' and re.search(r'VariableStorage::get_global$', o[2]) for o in oo_) and not any(o[0] == 'op' for o in oo_):
                         sseeds[l_] = ('bool', True)
-                spos, sneg, _ = test_edges(fn, sseeds) if sseeds else (set(), set(), [])
-                # the write is guarded by the periodic condition (above); the periodic condition can only become
-                # true on the SINGLE-low edge: every non-constant definition of it is behind that edge
-                pdefs = [b_ for l_ in (pd[:1] if pd else []) for (b_, k_, rv_) in fn.defs.get(l_, [])
-                         if not (k_ == 'A' and rv_[0] == 'use' and rv_[1][0] == 'k' and 'false' in rv_[1][2])]
-                if sneg and pdefs and all(guarded(fn, b_, sneg) for b_ in pdefs):
+                # SINGLE-low edges, closed under implication: the false edge of a test of SINGLE itself, and the true
+                # edge of a test of any flag that can only be true when SINGLE is low (`elapsed_ok && !single`, or a
+                # flag assigned under the SINGLE-low edge)
+                spos, sneg = implied_edges(fn, sseeds) if sseeds else (set(), set())
+                if sneg and all(guarded(fn, b_, sneg) for b_ in lr):
                     r4.ok('period-memory-behind-single-gate', loc=fn.loc(lr[0]))
                 else:
                     r4.bad('period-memory-behind-single-gate', 'TaskState.last_run is updated on a path where the task\'s SINGLE input may be high: the period memory advances although no periodic activation is queued, so the activation due when SINGLE falls is lost', loc=fn.loc(lr[0]))
@@ -238,7 +241,7 @@ def run(ctx):
             # memory (last_run) and the interval only, independent of the current clock sample
             fromn = [(b, t) for b, nm, t in fn.calls(lambda n: re.search(r'Duration::from_nanos$', n) is not None) if b in loop]
             if pd and fromn:
-                pos, neg, _ = test_edges(fn, {pd[0]: ('bool', True)})
+                pos = pd_pos or test_edges(fn, {pd[0]: ('bool', True)})[0]
                 per = [(b, t) for b, t in fromn if pos and guarded(fn, b, pos)]
                 if len(per) != 1:
                     r4.bad('due-time-from-schedule-memory', 'expected one due-time construction under the periodic condition, found %d' % len(per), loc=fn.loc(fromn[0][0]))
